@@ -466,6 +466,20 @@ CHILDIDX_EXEMPT = {
 }
 
 
+def _is_file_local_worker(F, fn):
+    """a static free function that other functions of its file call: rules about what a function does with its
+    arguments judge it where it is called, with the arguments in place of the parameters"""
+    if not fn.get("static") or fn.get("cls"):
+        return False
+    cache = F.__dict__.setdefault("_worker_cache", {})
+    key = (fn.get("q"), fn.get("file"), fn.get("line"))
+    if key not in cache:
+        fl = fn.get("file")
+        cache[key] = any(any(c.get("fn") == fn["q"] for c in calls(g.get("body"))) for g in F.functions.values()
+                         if g.get("file") == fl and g is not fn and g.get("body") is not None)
+    return cache[key]
+
+
 def run_childidx(chk, F, rid="R-CHILDIDX"):
     """expression_t::get(i) / operator[](i) index the child vector without a range check.  A loop that walks the children
     of a node X must be bounded by X's own get_size(): a bound taken from somewhere else (the number of parameters of
@@ -484,6 +498,9 @@ def run_childidx(chk, F, rid="R-CHILDIDX"):
         fl = fn.get("file") or ""
         if fn.get("body") is None or fl.startswith("/usr") or "/test/" in fl or not fl.endswith((".cpp", ".h", ".hpp")):
             continue
+        if _is_file_local_worker(F, fn):
+            continue        # judged inside the functions that call it (expanded there, bounds as the caller passes them)
+        fn = expanded_fn(fn, F, accept=lambda t_: bool(t_.get("static")) and not t_.get("cls"), maxdepth=2)
         inits, loopvars, adds = {}, set(), {}
         for d in walk(fn["body"]):
             if d.get("k") == "decl":
@@ -516,9 +533,13 @@ def run_childidx(chk, F, rid="R-CHILDIDX"):
 
         def same(a, b):
             a, b = root_of(a), root_of(b)
-            if isinstance(a, dict) and a.get("k") == "this":
+
+            def is_this(z):
+                return isinstance(z, dict) and (z.get("k") == "this" or (z.get("k") == "un" and z.get("op") == "*" and
+                                                                          strip(z.get("e") or {}).get("k") == "this"))
+            if is_this(a):
                 a = None
-            if isinstance(b, dict) and b.get("k") == "this":
+            if is_this(b):
                 b = None
             if a is None or b is None:
                 return a is None and b is None
@@ -538,6 +559,15 @@ def run_childidx(chk, F, rid="R-CHILDIDX"):
             if e.get("k") == "bin" and e.get("op") in ("+", "-") and strip(e["rhs"]).get("k") == "int":
                 b = size_off(e["lhs"], X, depth + 1, eqs)
                 return None if b is None else b + (strip(e["rhs"])["v"] if e["op"] == "+" else -strip(e["rhs"])["v"])
+            if e.get("k") == "bin" and e.get("op") in ("+", "-") and strip(e["rhs"]).get("k") == "cond" and \
+                    strip(strip(e["rhs"])["a"]).get("k") == "int" and strip(strip(e["rhs"])["b"]).get("k") == "int":
+                # X.get_size() - (flag ? 5 : 3): the largest value it can have
+                b = size_off(e["lhs"], X, depth + 1, eqs)
+                arms = [strip(strip(e["rhs"])["a"])["v"], strip(strip(e["rhs"])["b"])["v"]]
+                return None if b is None else b + (max(arms) if e["op"] == "+" else -min(arms))
+            if e.get("k") == "bin" and e.get("op") == "+" and strip(e["lhs"]).get("k") == "int":
+                b = size_off(e["rhs"], X, depth + 1, eqs)
+                return None if b is None else b + strip(e["lhs"])["v"]
             if e.get("k") == "call" and e.get("name") in ("min",):
                 bs = [size_off(a, X, depth + 1, eqs) for a in e.get("args", [])]
                 bs = [b for b in bs if b is not None]
@@ -561,6 +591,29 @@ def run_childidx(chk, F, rid="R-CHILDIDX"):
                     return None
                 return max(cands) + extra
             return None
+
+        def literal_lambda_param(e):
+            """e names a parameter of a lambda defined in this function, and every call of that lambda passes an
+            integer literal there (`print_builtin_call(2)`)"""
+            if not (isinstance(e, dict) and e.get("k") == "ref" and e.get("dk") in ("param", "local")):
+                return False
+            for d in walk(fn["body"]):
+                if d.get("k") != "decl":
+                    continue
+                for v in d.get("vars", []):
+                    lam = strip(v["init"]) if v.get("init") is not None else None
+                    if not (isinstance(lam, dict) and lam.get("k") == "lambda"):
+                        continue
+                    pn = [p_.get("name") for p_ in lam.get("params", [])]
+                    if e.get("name") not in pn or not any(z is e or (z.get("k") == "ref" and z.get("name") == e.get("name"))
+                                                          for z in walk(lam.get("body") or {})):
+                        continue
+                    pos = pn.index(e["name"])
+                    sites = [c for c in walk(fn["body"]) if c.get("k") == "call" and c.get("ck") == "op" and c.get("op") == "()"
+                             and isinstance(c.get("recv"), dict) and strip(c["recv"]).get("name") == v.get("name")]
+                    if sites and all(len(c.get("args", [])) > pos and strip(c["args"][pos]).get("k") == "int" for c in sites):
+                        return True
+            return False
 
         def index_parts(e):
             """(loop variable id, a) for e = i + a, else None"""
@@ -612,6 +665,11 @@ def run_childidx(chk, F, rid="R-CHILDIDX"):
                         strip(c0["lhs"]).get("k") == "ref" and strip(c0["lhs"]).get("id") == vid):
                     continue
                 b = size_off(c0["rhs"], X, 0, tuple(eqs))
+                if b is None and (strip(c0["rhs"]).get("k") == "int" or literal_lambda_param(strip(c0["rhs"]))):
+                    # a literal bound (`print_operands(.., 0, 2, ..)` for a kind of fixed arity): these are literal
+                    # child indices - R-FIXEDIDX's subject, not a loop over "all children"
+                    ok, why = True, "literal bound"
+                    continue
                 if b is None:
                     why = "the loop is bounded by `%s`, which is not derived from the size of `%s`" % (
                         short(c0["rhs"])[:50], short(X)[:30] if X is not None else "this")
@@ -1230,6 +1288,9 @@ def run_childguard(chk, F, CG, entries, rid="R-CHILDGUARD"):
         if fn.get("body") is None or fn["q"] not in scope or (fn.get("file") or "").startswith("/usr") or \
                 fn.get("cls") == "UTAP::expression_t":
             continue
+        if _is_file_local_worker(F, fn):
+            continue        # judged where it is called (a print helper of expression.cpp runs under print's kind switch)
+        fn = expanded_fn(fn, F, accept=lambda t_: bool(t_.get("static")) and not t_.get("cls"), maxdepth=2)
         for site, conds in sites_with_conditions(
                 fn["body"], lambda x: x.get("k") == "call" and x.get("cls") == "UTAP::expression_t" and
                 (x.get("name") == "get" or (x.get("ck") == "op" and x.get("op") == "[]")) and x.get("args") and
